@@ -7,10 +7,12 @@
 //!   c20       C20: hash-order seam exploration + seeded oracles
 //!   replay    re-execute a replay file; exit 1 + VIOLATION line if it reproduces
 
+// (the surfaces of the two copies that run under a scheduler live in crates of their own, which the
+// rustc wrapper instruments: generic library code is compiled where it is instantiated)
 #[cfg(feature = "e1")]
-vcore::impl_surface!(s_sim, mv_sim);
+pub use surf_sim::s_sim;
 vcore::impl_surface!(s_seq, mv_seq);
-vcore::impl_surface!(s_real, mv_real);
+pub use surf_real::s_real;
 
 #[cfg(feature = "e1")]
 mod c09;
@@ -76,6 +78,15 @@ fn main() {
     #[cfg(feature = "e1")]
     if std::env::var("VERIF_NO_SCHED_HOOK").is_err() {
         mv_sim::verif::set_sched_point(Some(sim_rayon::sim::sched_point));
+    }
+
+    // the seam registry's own atomics are plumbing, not scheduling points
+    #[cfg(feature = "e1")]
+    for a in mv_sim::verif::seam_addresses() {
+        bbguard::ignore_atomic(a);
+    }
+    for a in mv_real::verif::seam_addresses() {
+        bbguard::ignore_atomic(a);
     }
 
     let args = Args::parse();
